@@ -41,6 +41,7 @@ type c06Case struct {
 	// beyond the query's interval (1 s) and delivers 3 more; every line is its own group (more groups than the
 	// 10-entry message queue holds) and the consumer needs 3 ms per message.
 	Interim bool `json:"interim"`
+	Broken    bool `json:"broken"`    // free runs: the glob also matches a file the reader cannot decode (an empty .gz, as log rotation leaves it)
 	NoFinalNL bool `json:"nofinalnl"` // every second file ends without a newline (its last line still counts)
 }
 
@@ -204,6 +205,10 @@ func c06Run(c c06Case, base string) (res c06Result) {
 		w.fileOf[p] = f
 		res.Total += c.Lines[f-1]
 	}
+	if c.Broken && !c.Interim {
+		os.WriteFile(filepath.Join(dir, "f00.log.gz"), []byte{}, 0644)
+		os.WriteFile(filepath.Join(dir, "f000.log.zst"), []byte("this is not zstd"), 0644)
+	}
 	u, _ := user.New("vuser", "harness")
 	if c.Interim {
 		u, _ = user.New(config.ScheduleUser, "harness") // ordinary users may only open regular files; the input here is a FIFO
@@ -261,7 +266,7 @@ func c06Run(c c06Case, base string) (res c06Result) {
 		if h.aggregate != nil {
 			c06Worlds.Store(c06Addr(h.aggregate), w)
 		}
-		h.Write(c06Frame(fmt.Sprintf("cat:quiet=true %s regex:noop ", filepath.Join(dir, "*.log"))))
+		h.Write(c06Frame(fmt.Sprintf("cat:quiet=true %s regex:noop ", filepath.Join(dir, "*.log*"))))
 	}()
 	// ---- replay the behaviour.  The model's file numbers are bound to real readers as they show up (which reader wins
 	// the limiter is the runtime's choice); a re-queue step is skipped when no re-queue goroutine exists (whether the
